@@ -216,6 +216,10 @@ pub fn assemble(asm: &RAsm) -> Result<RByteCode, Layout> {
                     _ => line_items = encode(i, next),
                 }
                 next += line_items.len();
+                // the first layout fault in program order is the one reported
+                if next > 255 && layout_err.is_none() {
+                    layout_err = Some(Layout::TooLarge { size: next });
+                }
             }
         }
         items.push(line_items);
